@@ -11,7 +11,7 @@ EXTENDS Integers, Sequences, FiniteSets, TLC, Json, IOUtils
 Trace == ndJsonDeserialize(IOEnv.TRACE)
 VARIABLES l, failed, stat
 tvars == <<l, failed, stat>>
-Stat0 == [calls |-> 0, failing |-> 0, lockstep |-> 0, ctxCodes |-> 0, streaming |-> 0, zeroMsg |-> 0, waiting |-> 0]
+Stat0 == [calls |-> 0, httpCalls |-> 0, failing |-> 0, lockstep |-> 0, ctxCodes |-> 0, streaming |-> 0, zeroMsg |-> 0, waiting |-> 0]
 TInit == l = 1 /\ failed = {} /\ stat = Stat0
 
 \* the oracle of Proxy.tla, for the script of the event
@@ -47,11 +47,22 @@ Judge(e) ==
              THEN {"BackendSaw"} ELSE {})
        \cup (IF ~p.hang /\ p.bcalls = 1 /\ ~p.mdok THEN {"RequestMetadata"} ELSE {})
 
+\* the same script from an HTTP/JSON client on the front: same replies, same final status, same backend view
+JudgeHTTP(e) ==
+  LET d == e.direct  h == e.http IN
+  IF ~e.hashttp \/ e.crash # "" \/ ~DirectOK(e) THEN {}
+  ELSE (IF h.hang \/ h.err # "" \/ h.replies # d.replies \/ h.code # d.code \/ h.msgequal # d.msgequal \/ h.detequal # d.detequal
+        THEN {"TranscriptEquivalenceHTTP"} ELSE {})
+       \cup (IF ~h.hang /\ (h.bcalls # d.bcalls \/ Len(h.bgot) < BackendReads(e.s) \/ h.bgot # [k \in 1..Len(h.bgot) |-> k]
+                            \/ Len(h.bgot) > e.s.n)
+             THEN {"BackendSawHTTP"} ELSE {})
+       \cup (IF ~h.hang /\ h.bcalls = 1 /\ ~h.mdok THEN {"RequestMetadataHTTP"} ELSE {})
+
 TProxy ==
   /\ l <= Len(Trace) /\ Trace[l].ev = "Proxy"
   /\ LET e == Trace[l] IN
-       /\ failed' = failed \cup {<<e.case, l, f>> : f \in Judge(e)}
-       /\ stat' = [stat EXCEPT !.calls = @ + 1, !.failing = @ + (IF Fails(e.s) THEN 1 ELSE 0),
+       /\ failed' = failed \cup {<<e.case, l, f>> : f \in Judge(e) \cup JudgeHTTP(e)}
+       /\ stat' = [stat EXCEPT !.calls = @ + 1, !.httpCalls = @ + (IF e.hashttp THEN 1 ELSE 0), !.failing = @ + (IF Fails(e.s) THEN 1 ELSE 0),
                                !.lockstep = @ + (IF LockStep(e.s) THEN 1 ELSE 0), !.ctxCodes = @ + (IF Fails(e.s) /\ e.s.code \in {1, 4} THEN 1 ELSE 0),
                                !.streaming = @ + (IF e.s.shape # "unary" THEN 1 ELSE 0),
                                !.zeroMsg = @ + (IF e.s.n = 0 THEN 1 ELSE 0), !.waiting = @ + (IF e.s.wait THEN 1 ELSE 0)]
